@@ -341,9 +341,12 @@ fn body(r: &mut Rng, a: &mut Asm, depth: &mut usize, n: usize, flavour: usize) {
 /// underflows, dead code, loops.
 pub fn gen_program(r: &mut Rng, flavour: usize) -> Vec<u8> {
     let nblocks = 1 + r.below(6);
-    let mut a = Asm::new(nblocks + 1);
+    let mut a = Asm::new(nblocks + 2);
     let mut depth = 0usize;
     let bad_jumps = flavour == 2 || r.chance(1, 5);
+    // label `nblocks + 1`: a 0x5b byte inside the immediate of a PUSH cut short by the end of the code
+    let tail_label = nblocks + 1;
+    let mut wants_tail = false;
     let loops = flavour == 3 || r.chance(1, 4);
     for b in 0..nblocks {
         if b > 0 {
@@ -355,9 +358,10 @@ pub fn gen_program(r: &mut Rng, flavour: usize) -> Vec<u8> {
         let t = r.below(100);
         let target = if loops && r.chance(1, 2) { 1 + r.below(b.max(1)) } else { (b + 1 + r.below(nblocks)).min(nblocks) };
         let target = if target >= nblocks { b.max(1).min(nblocks - 1).max(1).min(nblocks.saturating_sub(1)).max(0) } else { target };
-        let push_target = |r: &mut Rng, a: &mut Asm| {
+        let mut push_target = |r: &mut Rng, a: &mut Asm| {
             if bad_jumps && r.chance(1, 3) {
-                match r.below(6) {
+                match r.below(7) {
+                    6 => { wants_tail = true; a.push_label(tail_label) }
                     0 => a.push_u(0xffff),                         // out of range
                     1 => a.push_u(1),                              // not a JUMPDEST (probably)
                     2 => {
@@ -412,6 +416,18 @@ pub fn gen_program(r: &mut Rng, flavour: usize) -> Vec<u8> {
     }
     if r.chance(1, 3) {
         a.op(0x00);
+    }
+    if wants_tail {
+        // PUSHn with fewer immediate bytes than announced, the last one being 0x5b
+        let n = 2 + r.below(31);
+        let k = 1 + r.below(n - 1);
+        a.bytes.push(0x5f + n as u8);
+        for _ in 0..k - 1 {
+            let b = if r.chance(1, 3) { 0x5b } else { r.byte() };
+            a.bytes.push(b);
+        }
+        a.label(tail_label);
+        return a.finish();
     }
     let mut bytes = a.finish();
     if bytes.is_empty() {
@@ -488,7 +504,11 @@ pub fn gen_cfg(r: &mut Rng, flavour: usize) -> String {
     format!("{gas},{iter},{fork},{val},{mem},{}", r.below(2))
 }
 
-pub const FIXED: [&str; 18] = [
+pub const FIXED: [&str; 22] = [
+    "60055600615b",                       // JUMP into the only immediate byte (0x5b) of a PUSH2 cut short by the end of the code
+    "6001600757005b00615b",               // JUMPI into a truncated tail ... and a real JUMPDEST before it
+    "600556007f5b5b",                     // PUSH32 with two immediate bytes, both 0x5b
+    "6004565b605b",                       // complete PUSH1 0x5b as the last instruction: its immediate is not a destination
     "6003565b00",                         // PUSH1 3 JUMP JUMPDEST STOP
     "600160ff5700",                       // JUMPI to a bad target
     "6401000000095600005b00",             // jump target >= 2^32 whose low bits name a JUMPDEST
